@@ -18,7 +18,10 @@ methods that update graphics parameters directly):
   one after the other and leave no open pair (`CanClose` unless a Type 3 glyph still waits for
   `d0`/`d1`);
 * `builder_close` — when `Close()` reports no error, nothing is open and `ClosingOperators` is
-  empty: the stream is balanced as it stands.
+  empty: the stream is balanced as it stands;
+* `builder_nested` — with `Version > 0` the session is a **properly nested** sequence of pairs
+  (an ordinary stack discipline, stated without reference to `State`), and with the
+  `ClosingOperators` appended nothing is open (D-C15-5: `popNesting` is strict for the Builder).
 
 `Builder.Close` itself appends nothing (it is `State.CanClose`); "the stream followed by
 `ClosingOperators`" is what consumers such as `reader.ProcessIter` build, and what the harness
@@ -36,7 +39,7 @@ inductive Accepts : St → List (Bytes × List Obj) → St → Prop
       (h : applyOperator s n a = .ok s1) (h2 : Accepts s1 ops s') : Accepts s ((n, a) :: ops) s'
 
 theorem inv_adjust (s s1 : St) (h : Inv s) (ha : AdjustOK s s1) : Inv s1 := by
-  obtain ⟨a1, a2, a3, a4⟩ := ha
+  obtain ⟨a1, a2, a3, a4, _⟩ := ha
   constructor
   · intro ho; rw [a2]; exact h.text_in (a1 ▸ ho)
   · intro ho; rw [a2]; exact h.text_out (a1 ▸ ho)
@@ -85,13 +88,209 @@ def ActsOK (acts : List BAct) : Prop :=
 
 /-- the invariant of the Builder -/
 def BInv (b : Bld) : Prop :=
-  ∃ ct strict, Inv b.st ∧ (b.err = false → Accepts (initSt ct strict) (b.done ++ b.stream) b.st)
+  ∃ ct strict ver, Inv b.st ∧ (b.err = false → Accepts (initSt ct strict ver) (b.done ++ b.stream) b.st)
 
-theorem binv_new (ct : Nat) (strict : Bool) : BInv (Bld.new ct strict) :=
-  ⟨ct, strict, init_inv ct strict, fun _ => .nil _⟩
+theorem binv_new (ct : Nat) (strict ver : Bool) : BInv (Bld.new ct strict ver) :=
+  ⟨ct, strict, ver, init_inv ct strict ver, fun _ => .nil _⟩
 
-theorem binv_act (verOK : Bytes → Bool) (b : Bld) (act : BAct) (h : BInv b)
+theorem binv_act (verOK : Bytes → List Obj → Bool) (b : Bld) (act : BAct) (h : BInv b)
     (hact : ∀ f, act = .adjust f → ∀ s, AdjustOK s (f s)) : BInv (b.act verOK act) := by
+  obtain ⟨ct, strict, ver, hinv, hacc⟩ := h
+  cases act with
+  | emit n a =>
+    simp only [Bld.act, Bld.emit]
+    cases he : b.err with
+    | true => simp only [if_true]; exact ⟨ct, strict, ver, hinv, fun h => by rw [he] at h; simp at h⟩
+    | false =>
+      simp only [Bool.false_eq_true, if_false]
+      cases hv : verOK n a with
+      | false => simp only [Bool.not_false, if_true]; exact ⟨ct, strict, ver, hinv, fun h => by simp at h⟩
+      | true =>
+        simp only [Bool.not_true, Bool.false_eq_true, if_false]
+        cases hstep : applyOperator b.st n a with
+        | error e => simp only []; exact ⟨ct, strict, ver, hinv, fun h => by simp at h⟩
+        | ok st' =>
+          simp only []
+          refine ⟨ct, strict, ver, step_inv _ _ _ _ hinv hstep, fun _ => ?_⟩
+          rw [← List.append_assoc]
+          exact accepts_snoc (hacc he) hstep
+  | fail => exact ⟨ct, strict, ver, hinv, fun h => by simp [Bld.act] at h⟩
+  | adjust f =>
+    simp only [Bld.act]
+    cases he : b.err with
+    | true => simp only [if_true]; exact ⟨ct, strict, ver, hinv, fun h => by rw [he] at h; simp at h⟩
+    | false =>
+      simp only [Bool.false_eq_true, if_false]
+      have ha := hact f rfl b.st
+      exact ⟨ct, strict, ver, inv_adjust _ _ hinv ha, fun _ => accepts_adj_end (hacc he) ha⟩
+  | harvest =>
+    simp only [Bld.act]
+    cases he : b.err with
+    | true => simp only [if_true]; exact ⟨ct, strict, ver, hinv, fun h => by rw [he] at h; simp at h⟩
+    | false =>
+      simp only [Bool.false_eq_true, if_false]
+      exact ⟨ct, strict, ver, hinv, fun _ => by simpa using hacc he⟩
+  | reset ct' strict' ver' => exact binv_new ct' strict' ver'
+
+theorem binv_run (verOK : Bytes → List Obj → Bool) (acts : List BAct) : ∀ (b : Bld), BInv b → ActsOK acts →
+    BInv (b.runActs verOK acts) := by
+  induction acts with
+  | nil => intro b h _; exact h
+  | cons act rest ih =>
+    intro b h hok
+    simp only [Bld.runActs]
+    exact ih _ (binv_act verOK b act h (fun f hf s => hok act (by simp) f hf s))
+      (fun a ha f hf s => hok a (by simp [ha]) f hf s)
+
+/-- **Every stream an error-free Builder has emitted is accepted by the state machine.**  For
+every content type, version, version table and action sequence: if `Err` is nil at the end, the
+operators of the current session — the harvested segments in order, then the current stream — are
+accepted one by one by `State.ApplyOperator`, starting from a fresh state and ending in the
+Builder's state, which satisfies the structural invariant. -/
+theorem builder_accepts (verOK : Bytes → List Obj → Bool) (ct : Nat) (strict ver : Bool) (acts : List BAct) (hok : ActsOK acts) :
+    let b := (Bld.new ct strict ver).runActs verOK acts
+    Inv b.st ∧ (b.err = false → ∃ ct' strict' ver', Accepts (initSt ct' strict' ver') (b.done ++ b.stream) b.st) := by
+  obtain ⟨ct', strict', ver', h1, h2⟩ := binv_run verOK acts _ (binv_new ct strict ver) hok
+  exact ⟨h1, fun he => ⟨ct', strict', ver', h2 he⟩⟩
+
+/-! ## programs without direct parameter updates: plain `run` -/
+
+def NoAdjust (acts : List BAct) : Prop := ∀ act ∈ acts, ∀ f, act ≠ .adjust f
+
+def PInv (b : Bld) : Prop :=
+  ∃ ct strict ver, b.err = false → run (initSt ct strict ver) (b.done ++ b.stream) = .ok b.st
+
+theorem run_snoc (ops : List (Bytes × List Obj)) (s s1 s2 : St) (n : Bytes) (a : List Obj)
+    (h : run s ops = .ok s1) (hstep : applyOperator s1 n a = .ok s2) : run s (ops ++ [(n, a)]) = .ok s2 := by
+  rw [run_append ops _ s s1 h]
+  simp [run, hstep]
+
+theorem pinv_act (verOK : Bytes → List Obj → Bool) (b : Bld) (act : BAct) (h : PInv b) (hna : ∀ f, act ≠ .adjust f) :
+    PInv (b.act verOK act) := by
+  obtain ⟨ct, strict, ver, hrun⟩ := h
+  cases act with
+  | emit n a =>
+    simp only [Bld.act, Bld.emit]
+    cases he : b.err with
+    | true => simp only [if_true]; exact ⟨ct, strict, ver, fun h => by rw [he] at h; simp at h⟩
+    | false =>
+      simp only [Bool.false_eq_true, if_false]
+      cases hv : verOK n a with
+      | false => simp only [Bool.not_false, if_true]; exact ⟨ct, strict, ver, fun h => by simp at h⟩
+      | true =>
+        simp only [Bool.not_true, Bool.false_eq_true, if_false]
+        cases hstep : applyOperator b.st n a with
+        | error e => simp only []; exact ⟨ct, strict, ver, fun h => by simp at h⟩
+        | ok st' =>
+          simp only []
+          refine ⟨ct, strict, ver, fun _ => ?_⟩
+          rw [← List.append_assoc]
+          exact run_snoc _ _ _ _ _ _ (hrun he) hstep
+  | fail => exact ⟨ct, strict, ver, fun h => by simp [Bld.act] at h⟩
+  | adjust f => exact absurd rfl (hna f)
+  | harvest =>
+    simp only [Bld.act]
+    cases he : b.err with
+    | true => simp only [if_true]; exact ⟨ct, strict, ver, fun h => by rw [he] at h; simp at h⟩
+    | false =>
+      simp only [Bool.false_eq_true, if_false]
+      exact ⟨ct, strict, ver, fun _ => by simpa using hrun he⟩
+  | reset ct' strict' ver' => exact ⟨ct', strict', ver', fun _ => rfl⟩
+
+/-- **Builder programs without direct parameter updates**: the emitted session is literally
+accepted by `run` from a fresh state. -/
+theorem builder_run (verOK : Bytes → List Obj → Bool) (acts : List BAct) : ∀ (b : Bld), PInv b → NoAdjust acts →
+    PInv (b.runActs verOK acts) := by
+  induction acts with
+  | nil => intro b h _; exact h
+  | cons act rest ih =>
+    intro b h hna
+    simp only [Bld.runActs]
+    exact ih _ (pinv_act verOK b act h (fun f => hna act (by simp) f)) (fun a ha f => hna a (by simp [ha]) f)
+
+theorem pinv_new (ct : Nat) (strict ver : Bool) : PInv (Bld.new ct strict ver) :=
+  ⟨ct, strict, ver, fun _ => rfl⟩
+
+/-! ## closing -/
+
+/-- **The Builder's stream closes.**  Whatever an error-free Builder has emitted, the operators
+returned by `State.ClosingOperators` for its state are accepted one after the other, leave no
+paired operator open, and `CanClose` then succeeds (unless a Type 3 glyph procedure has not yet
+seen `d0`/`d1`). -/
+theorem builder_closing (verOK : Bytes → List Obj → Bool) (ct : Nat) (strict ver : Bool) (acts : List BAct) (hok : ActsOK acts) :
+    let b := (Bld.new ct strict ver).runActs verOK acts
+    ∃ s', run b.st ((closingOperators b.st).map fun c => (c, [])) = .ok s' ∧ s'.nesting = [] ∧
+      closingOperators s' = [] ∧ (b.st.obj ≠ 16 → canClose s' = true) := by
+  have hinv := (builder_accepts verOK ct strict ver acts hok).1
+  intro b
+  have := closing_balances b.st b.st [] hinv rfl
+  simpa using this
+
+/-- for programs without direct parameter updates `closing_balances` applies to the whole
+session: the emitted operators followed by the closing operators are accepted from a fresh state
+and balance -/
+theorem builder_session_closes (verOK : Bytes → List Obj → Bool) (ct : Nat) (strict ver : Bool) (acts : List BAct)
+    (hna : NoAdjust acts) :
+    let b := (Bld.new ct strict ver).runActs verOK acts
+    b.err = false → ∃ ct' strict' ver' s',
+      run (initSt ct' strict' ver') (b.done ++ b.stream ++ (closingOperators b.st).map fun c => (c, [])) = .ok s' ∧
+      s'.nesting = [] ∧ closingOperators s' = [] := by
+  intro b he
+  obtain ⟨ct', strict', ver', hrun⟩ := builder_run verOK acts _ (pinv_new ct strict ver) hna
+  obtain ⟨s', h1, h2, h3, _⟩ := closing_balances _ _ _ (init_inv ct' strict' ver') (hrun he)
+  exact ⟨ct', strict', ver', s', h1, h2, h3⟩
+
+/-- **`Close() == nil` means balanced as it stands**: no paired operator is open, the state is
+the page state, and `ClosingOperators` is empty. -/
+theorem builder_close (b : Bld) (h : b.close = true) :
+    b.err = false ∧ b.st.nesting = [] ∧ closingOperators b.st = [] := by
+  simp only [Bld.close, Bool.and_eq_true, Bool.not_eq_true', canClose, List.isEmpty_iff, beq_iff_eq] at h
+  obtain ⟨he, hn, ho⟩ := h
+  refine ⟨he, hn, ?_⟩
+  simp [closingOperators, hn, ho, Gen.content_ObjPage, Gen.content_ObjPath, Gen.content_ObjClippingPath]
+
+/-! ## nesting discipline (D-C15-5) -/
+
+theorem accepts_nested {s s' : St} {ops : List (Bytes × List Obj)} (h : Accepts s ops s') :
+    s.ver = true → nested s.nesting ops = some s'.nesting ∧ s'.ver = true := by
+  induction h with
+  | nil s => intro hv; exact ⟨rfl, hv⟩
+  | adj ha _ ih =>
+    intro hv
+    obtain ⟨_, a2, _, _, a5⟩ := ha
+    have := ih (by rw [a5]; exact hv)
+    rw [a2] at this
+    exact this
+  | step hstep _ ih =>
+    intro hv
+    obtain ⟨n1, n2⟩ := step_nested _ _ _ _ hv hstep
+    obtain ⟨i1, i2⟩ := ih n2
+    exact ⟨by simp only [nested, n1]; exact i1, i2⟩
+
+theorem nested_append (a b : List (Bytes × List Obj)) : ∀ (stk stk1 : List Nat), nested stk a = some stk1 →
+    nested stk (a ++ b) = nested stk1 b := by
+  induction a with
+  | nil => intro stk stk1 h; simp [nested] at h; simp [h]
+  | cons op rest ih =>
+    intro stk stk1 h
+    obtain ⟨n, x⟩ := op
+    simp only [nested, List.cons_append] at h ⊢
+    cases hs : nestStep stk n with
+    | none => simp [hs] at h
+    | some stk' =>
+      simp only [hs] at h ⊢
+      exact ih stk' stk1 h
+
+/-- `Reset` keeps the Builder's version: every `reset` action of the program has `Version > 0` -/
+def VerActs (acts : List BAct) : Prop := ∀ act ∈ acts, ∀ ct strict ver, act = .reset ct strict ver → ver = true
+
+/-- the Builder's state: a session begun with `Version > 0` -/
+def VInv (b : Bld) : Prop :=
+  ∃ ct strict, Inv b.st ∧ (b.err = false → Accepts (initSt ct strict true) (b.done ++ b.stream) b.st)
+
+theorem vinv_act (verOK : Bytes → List Obj → Bool) (b : Bld) (act : BAct) (h : VInv b)
+    (hact : ∀ f, act = .adjust f → ∀ s, AdjustOK s (f s))
+    (hver : ∀ ct strict ver, act = .reset ct strict ver → ver = true) : VInv (b.act verOK act) := by
   obtain ⟨ct, strict, hinv, hacc⟩ := h
   cases act with
   | emit n a =>
@@ -100,7 +299,7 @@ theorem binv_act (verOK : Bytes → Bool) (b : Bld) (act : BAct) (h : BInv b)
     | true => simp only [if_true]; exact ⟨ct, strict, hinv, fun h => by rw [he] at h; simp at h⟩
     | false =>
       simp only [Bool.false_eq_true, if_false]
-      cases hv : verOK n with
+      cases hv : verOK n a with
       | false => simp only [Bool.not_false, if_true]; exact ⟨ct, strict, hinv, fun h => by simp at h⟩
       | true =>
         simp only [Bool.not_true, Bool.false_eq_true, if_false]
@@ -127,124 +326,51 @@ theorem binv_act (verOK : Bytes → Bool) (b : Bld) (act : BAct) (h : BInv b)
     | false =>
       simp only [Bool.false_eq_true, if_false]
       exact ⟨ct, strict, hinv, fun _ => by simpa using hacc he⟩
-  | reset ct' strict' => exact binv_new ct' strict'
+  | reset ct' strict' ver' =>
+    have := hver ct' strict' ver' rfl
+    subst this
+    exact ⟨ct', strict', init_inv ct' strict' true, fun _ => .nil _⟩
 
-theorem binv_run (verOK : Bytes → Bool) (acts : List BAct) : ∀ (b : Bld), BInv b → ActsOK acts →
-    BInv (b.runActs verOK acts) := by
+theorem vinv_run (verOK : Bytes → List Obj → Bool) (acts : List BAct) : ∀ (b : Bld), VInv b → ActsOK acts → VerActs acts →
+    VInv (b.runActs verOK acts) := by
   induction acts with
-  | nil => intro b h _; exact h
+  | nil => intro b h _ _; exact h
   | cons act rest ih =>
-    intro b h hok
+    intro b h hok hver
     simp only [Bld.runActs]
-    exact ih _ (binv_act verOK b act h (fun f hf s => hok act (by simp) f hf s))
+    exact ih _ (vinv_act verOK b act h (fun f hf s => hok act (by simp) f hf s)
+        (fun c st v hr => hver act (by simp) c st v hr))
       (fun a ha f hf s => hok a (by simp [ha]) f hf s)
+      (fun a ha c st v hr => hver a (by simp [ha]) c st v hr)
 
-/-- **Every stream an error-free Builder has emitted is accepted by the state machine.**  For
-every content type, version, version table and action sequence: if `Err` is nil at the end, the
-operators of the current session — the harvested segments in order, then the current stream — are
-accepted one by one by `State.ApplyOperator`, starting from a fresh state and ending in the
-Builder's state, which satisfies the structural invariant. -/
-theorem builder_accepts (verOK : Bytes → Bool) (ct : Nat) (strict : Bool) (acts : List BAct) (hok : ActsOK acts) :
-    let b := (Bld.new ct strict).runActs verOK acts
-    Inv b.st ∧ (b.err = false → ∃ ct' strict', Accepts (initSt ct' strict') (b.done ++ b.stream) b.st) := by
-  obtain ⟨ct', strict', h1, h2⟩ := binv_run verOK acts _ (binv_new ct strict) hok
-  exact ⟨h1, fun he => ⟨ct', strict', h2 he⟩⟩
-
-/-! ## programs without direct parameter updates: plain `run` -/
-
-def NoAdjust (acts : List BAct) : Prop := ∀ act ∈ acts, ∀ f, act ≠ .adjust f
-
-def PInv (b : Bld) : Prop :=
-  ∃ ct strict, b.err = false → run (initSt ct strict) (b.done ++ b.stream) = .ok b.st
-
-theorem run_snoc (ops : List (Bytes × List Obj)) (s s1 s2 : St) (n : Bytes) (a : List Obj)
-    (h : run s ops = .ok s1) (hstep : applyOperator s1 n a = .ok s2) : run s (ops ++ [(n, a)]) = .ok s2 := by
-  rw [run_append ops _ s s1 h]
-  simp [run, hstep]
-
-theorem pinv_act (verOK : Bytes → Bool) (b : Bld) (act : BAct) (h : PInv b) (hna : ∀ f, act ≠ .adjust f) :
-    PInv (b.act verOK act) := by
-  obtain ⟨ct, strict, hrun⟩ := h
-  cases act with
-  | emit n a =>
-    simp only [Bld.act, Bld.emit]
-    cases he : b.err with
-    | true => simp only [if_true]; exact ⟨ct, strict, fun h => by rw [he] at h; simp at h⟩
-    | false =>
-      simp only [Bool.false_eq_true, if_false]
-      cases hv : verOK n with
-      | false => simp only [Bool.not_false, if_true]; exact ⟨ct, strict, fun h => by simp at h⟩
-      | true =>
-        simp only [Bool.not_true, Bool.false_eq_true, if_false]
-        cases hstep : applyOperator b.st n a with
-        | error e => simp only []; exact ⟨ct, strict, fun h => by simp at h⟩
-        | ok st' =>
-          simp only []
-          refine ⟨ct, strict, fun _ => ?_⟩
-          rw [← List.append_assoc]
-          exact run_snoc _ _ _ _ _ _ (hrun he) hstep
-  | fail => exact ⟨ct, strict, fun h => by simp [Bld.act] at h⟩
-  | adjust f => exact absurd rfl (hna f)
-  | harvest =>
-    simp only [Bld.act]
-    cases he : b.err with
-    | true => simp only [if_true]; exact ⟨ct, strict, fun h => by rw [he] at h; simp at h⟩
-    | false =>
-      simp only [Bool.false_eq_true, if_false]
-      exact ⟨ct, strict, fun _ => by simpa using hrun he⟩
-  | reset ct' strict' => exact ⟨ct', strict', fun _ => rfl⟩
-
-/-- **Builder programs without direct parameter updates**: the emitted session is literally
-accepted by `run` from a fresh state. -/
-theorem builder_run (verOK : Bytes → Bool) (acts : List BAct) : ∀ (b : Bld), PInv b → NoAdjust acts →
-    PInv (b.runActs verOK acts) := by
-  induction acts with
-  | nil => intro b h _; exact h
-  | cons act rest ih =>
-    intro b h hna
-    simp only [Bld.runActs]
-    exact ih _ (pinv_act verOK b act h (fun f => hna act (by simp) f)) (fun a ha f => hna a (by simp [ha]) f)
-
-theorem pinv_new (ct : Nat) (strict : Bool) : PInv (Bld.new ct strict) :=
-  ⟨ct, strict, fun _ => rfl⟩
-
-/-! ## closing -/
-
-/-- **The Builder's stream closes.**  Whatever an error-free Builder has emitted, the operators
-returned by `State.ClosingOperators` for its state are accepted one after the other, leave no
-paired operator open, and `CanClose` then succeeds (unless a Type 3 glyph procedure has not yet
-seen `d0`/`d1`). -/
-theorem builder_closing (verOK : Bytes → Bool) (ct : Nat) (strict : Bool) (acts : List BAct) (hok : ActsOK acts) :
-    let b := (Bld.new ct strict).runActs verOK acts
-    ∃ s', run b.st ((closingOperators b.st).map fun c => (c, [])) = .ok s' ∧ s'.nesting = [] ∧
-      closingOperators s' = [] ∧ (b.st.obj ≠ 16 → canClose s' = true) := by
-  have hinv := (builder_accepts verOK ct strict acts hok).1
-  intro b
-  have := closing_balances b.st b.st [] hinv rfl
-  simpa using this
-
-/-- for programs without direct parameter updates `closing_balances` applies to the whole
-session: the emitted operators followed by the closing operators are accepted from a fresh state
-and balance -/
-theorem builder_session_closes (verOK : Bytes → Bool) (ct : Nat) (strict : Bool) (acts : List BAct)
-    (hna : NoAdjust acts) :
-    let b := (Bld.new ct strict).runActs verOK acts
-    b.err = false → ∃ ct' strict' s',
-      run (initSt ct' strict') (b.done ++ b.stream ++ (closingOperators b.st).map fun c => (c, [])) = .ok s' ∧
-      s'.nesting = [] ∧ closingOperators s' = [] := by
+/-- **Builder streams are properly nested.**  For a Builder with `Version > 0` — every content
+type, every version table, every action sequence with any `Harvest`/`Reset` points, refused
+calls and direct parameter updates —, as long as `Err` is nil: the operators of the session
+(`done ++ Stream`) are a properly nested sequence of `q…Q`, `BT…ET`, `BMC/BDC…EMC`, `BX…EX` pairs
+(every closer finds its own opener on top of an ordinary stack); the open pairs are the nesting
+stack of the Builder's state; and with the state's `ClosingOperators` appended nothing is open. -/
+theorem builder_nested (verOK : Bytes → List Obj → Bool) (ct : Nat) (strict : Bool) (acts : List BAct)
+    (hok : ActsOK acts) (hver : VerActs acts) :
+    let b := (Bld.new ct strict true).runActs verOK acts
+    b.err = false →
+      nested [] (b.done ++ b.stream) = some b.st.nesting ∧
+      nested [] (b.done ++ b.stream ++ (closingOperators b.st).map fun c => (c, [])) = some [] := by
   intro b he
-  obtain ⟨ct', strict', hrun⟩ := builder_run verOK acts _ (pinv_new ct strict) hna
-  obtain ⟨s', h1, h2, h3, _⟩ := closing_balances _ _ _ (init_inv ct' strict') (hrun he)
-  exact ⟨ct', strict', s', h1, h2, h3⟩
+  have h0 : VInv (Bld.new ct strict true) := ⟨ct, strict, init_inv ct strict true, fun _ => .nil _⟩
+  obtain ⟨ct', strict', hinv, hacc⟩ := vinv_run verOK acts _ h0 hok hver
+  obtain ⟨h1, h2⟩ := accepts_nested (hacc he) (by simp [initSt])
+  have h1' : nested [] (b.done ++ b.stream) = some b.st.nesting := by simpa [initSt] using h1
+  refine ⟨h1', ?_⟩
+  obtain ⟨s', hr, hn, _, _⟩ := closing_balances b.st b.st [] hinv rfl
+  have h3 := (ver_run_nested _ _ _ h2 hr).1
+  rw [hn] at h3
+  rw [nested_append _ _ _ _ h1']
+  simpa using h3
 
-/-- **`Close() == nil` means balanced as it stands**: no paired operator is open, the state is
-the page state, and `ClosingOperators` is empty. -/
-theorem builder_close (b : Bld) (h : b.close = true) :
-    b.err = false ∧ b.st.nesting = [] ∧ closingOperators b.st = [] := by
-  simp only [Bld.close, Bool.and_eq_true, Bool.not_eq_true', canClose, List.isEmpty_iff, beq_iff_eq] at h
-  obtain ⟨he, hn, ho⟩ := h
-  refine ⟨he, hn, ?_⟩
-  simp [closingOperators, hn, ho, Gen.content_ObjPage, Gen.content_ObjPath, Gen.content_ObjClippingPath]
+/-- cross-nested pairs do not pass a Builder with `Version > 0`: `BT BMC ET EMC` stops at `ET` -/
+example : ((Bld.runActs (fun _ _ => true) (Bld.new 0 false true)
+    [.emit [66, 84] [], .emit [66, 77, 67] [.name [120]], .emit [69, 84] [], .emit [69, 77, 67] []]).err) = true := by
+  decide +kernel
 
 /-! ## non-vacuity -/
 
@@ -252,7 +378,7 @@ theorem builder_close (b : Bld) (h : b.close = true) :
 the session `q BT | ET` is accepted, `Close` fails (q open), and the closers are `Q` -/
 def sampleProg : List BAct := [.emit [113] [], .emit [66, 84] [], .harvest, .emit [69, 84] []]
 
-def sampleBld : Bld := Bld.runActs (fun _ => true) (Bld.new 0 true) sampleProg
+def sampleBld : Bld := Bld.runActs (fun _ _ => true) (Bld.new 0 true true) sampleProg
 
 example : (sampleBld.err == false && sampleBld.done.length == 2 && sampleBld.stream.length == 1 &&
     sampleBld.close == false && closingOperators sampleBld.st == [[81]]) = true := by decide +kernel
